@@ -108,6 +108,29 @@ def execute(plan, sim):
         if a["graph_starts"] != want:
             v.append({"clause": "C19.graph_starts", "sig": integ,
                       "msg": f"{want} maximal runs of equal graph names, {a['graph_starts']} graph_start rows"})
+    if cfg["physical"] == "GRAPHS" and cfg["integration"] == "rdflib" and cfg["entry"] == "frames_gen" and stmts \
+            and len(stmts[0]) == 4:
+        # the rdflib integration regroups a quad sequence by graph before writing: still, consecutive quads with
+        # equal graph names must travel under a single graph start, i.e. no graph may be started more often than
+        # it has runs in the input sequence (the always-present default graph may add one start)
+        sim.count("graphs_from_sequence")
+        runs = {}
+        prev = object()
+        for st in stmts:
+            g = T.from_rdflib(T.to_rdflib(st[3]), graph_slot=True)
+            if g != prev:
+                runs[g] = runs.get(g, 0) + 1
+                prev = g
+        starts = {}
+        for g in a["graph_start_terms"]:
+            starts[g] = starts.get(g, 0) + 1
+        for g, n in starts.items():
+            allowed = runs.get(g, 0) + (1 if g == T.DEFAULT and g not in runs else 0)
+            if n > allowed:
+                v.append({"clause": "C19.graph_starts", "sig": integ,
+                          "msg": f"graph {g!r} has {runs.get(g, 0)} runs of consecutive quads in the input but "
+                                 f"{n} graph_start rows"})
+                break
     # size bound against the naive encoding of what the stream denotes, with the same options
     empty_graphs = cfg["physical"] == "GRAPHS" and a["graph_starts"] != runs_of_graphs(r.statements())
     if empty_graphs:
